@@ -1,6 +1,8 @@
 /-
-  Model of /repo/internal/orderedmap/map.go  (hand-written; tied to the code by the
-  correspondence stream `omap` of the harness, see /verif/DESIGN.md, C19).
+  Model of /repo/internal/orderedmap/map.go  (hand-written; tied to the code (1) by the
+  theorems of Cog/OMap/SrcEquiv.lean: the method bodies of the CURRENT map.go, translated by
+  /verif/extract/xomap into Cog.Gen.OMapSrc on every run, compute exactly these functions;
+  (2) by the correspondence streams `omap-*` of the harness, see /verif/DESIGN.md, C19).
 
   `records` is the Go `map[K]V` (only ever consulted by key, so an association list
   with unique keys, accessed exclusively through `rget/rset/rdel`), `order` is the
